@@ -110,9 +110,13 @@ def check_one(part, A, T, tname, reflect, npat, case):
         except Exception as e:
             part.fail("layout-raise:%s" % lname, "kabsch_rotation_matrix on views (%s) raised %r" % (lname, e), case)
             continue
-        if Rv.shape != R.shape or np.abs(Rv - R).max() > 1e-9 or abs(rv - r2) > 1e-9:
-            part.fail("layout-dependence:%s" % lname, "the same point sets given as %s of one buffer give another rotation (max dev %.3g) / rmsd (%.3g vs %.3g)"
-                      % (lname, float(np.abs(Rv - R).max()) if Rv.shape == R.shape else np.inf, rv, r2), case)
+        # (the rotation itself may legitimately differ where the optimum is not unique - collinear or planar-reflected sets - so the
+        # comparison is on what the statement fixes: a proper rotation reaching the optimal deviation, and the reported RMSD)
+        okv = Rv.shape == (3, 3) and np.abs(Rv @ Rv.T - np.eye(3)).max() < 1e-10 and abs(np.linalg.det(Rv) - 1.0) < 1e-9
+        gv = float(np.sqrt(np.vdot(A @ Rv - B, A @ Rv - B) / len(A))) if okv else np.inf
+        if not okv or gv > ref + TOL or abs(rv - r2) > 1e-9:
+            part.fail("layout-dependence:%s" % lname, "the same point sets given as %s of one buffer: rotation reaches RMSD %.9f (optimum %.9f), rmsd_points %.9f vs %.9f"
+                      % (lname, gv, ref, rv, r2), case)
     if reflect:
         imp = horn.improper_optimum(A, B)
         if ref > 1e-6 and got < ref - 1e-6:
